@@ -686,7 +686,7 @@ type c20 struct{}
 func init() { register(c20{}) }
 
 var c20Methods = []string{"syn", "sack", "prefer_sack", ""}
-var c20Caps = []string{"ok-ts", "ok", "noPermitted", "plainAck", "closed", "noSynAck", "unreach", "ok-synack-twice", "ok-fin"}
+var c20Caps = []string{"ok-ts", "ok", "noPermitted", "plainAck", "closed", "noSynAck", "unreach", "ok-synack-twice", "ok-fin", "ok-greeted"}
 
 // unreachTarget is an address for which the worker's private network namespace holds the policy
 // rule "to 198.18.0.9 ipproto tcp unreachable": a TCP connect fails at once with ENETUNREACH (a
@@ -730,6 +730,10 @@ func (c20) Gen(rng *rand.Rand, tier string, i int) *sim.Scenario {
 	case "ok-synack-twice":
 		// the target retransmits its SYN-ACK (it missed the handshake ACK): seen again during probing
 		lis.SynAckDupUs = int64(pick(rng, 300, 5000, 30000, 120000))
+	case "ok-greeted":
+		// a service that greets on accept (SSH, SMTP, ...): its banner went out before the capture filter
+		// was switched to the connection, so every later acknowledgement carries an advanced sequence number
+		lis.GreetingLen = between(rng, 1, 80)
 	case "ok-fin":
 		// the target closes its side right after accepting (a FIN|ACK with nothing to SACK yet arrives
 		// before or between the duplicate ACKs): it still answers every probe with SACK blocks
@@ -919,6 +923,10 @@ func (c20) Check(out *sim.Outcome, ri *RunInfo) []Violation {
 	if capb == "ok-synack-twice" {
 		capb = "ok" // a retransmitted SYN-ACK changes nothing about the target's capability
 		ri.probe("synack-retransmitted")
+	}
+	if capb == "ok-greeted" {
+		capb = "ok" // data the target sent on its own changes nothing about its SACK support
+		ri.probe("target-sent-a-banner")
 	}
 	if capb == "ok-fin" {
 		capb = "ok" // nor does a target that closes its own side: it acknowledges probes with SACK blocks all the same
